@@ -7,6 +7,7 @@
  *   m:<name> <operand> ...          method call `(:name a0 a1 ...)`
  *   <op> <operand> [<operand>]      op = + - * / div mod % band bor bxor blshift brshift brushift bnot
  *                                        < <= > >= = not= compare cmp int/s64 int/u64 int/to-number
+ *                                        zero? pos? neg? one? even? odd?
  *                                        math/floor math/ceil math/trunc math/round math/abs math/gcd math/lcm
  *   cmpsd <int64 decimal> <hex16>   compare_int64_double called directly
  *   cmpud <uint64 decimal> <hex16>  compare_uint64_double called directly
@@ -100,6 +101,7 @@ static void print_error(Janet e) {
     else if (!strncmp(m, "arity mismatch", 14)) printf("err:arity\n");
     else if (!strncmp(m, "unknown method", 14)) printf("err:nomethod\n");
     else if (!strncmp(m, "bad slot", 8)) printf("err:badslot\n");
+    else if (strstr(m, "> called with ")) printf("err:arity\n");   /* fixed-arity janet function (zero? ...) */
     else {
         printf("err:other:");
         for (const char *p = m; *p; p++) putchar(*p == ' ' || *p == '\n' ? '_' : *p);
